@@ -503,3 +503,6 @@ def run(ctx):
     r6(ctx)
     from .c07 import r5 as marker_recorded
     marker_recorded(ctx, rule="C03.R7")
+    # the OPTIONAL / DEFAULT wrappers hide the enclosing scope on both sides while the value is transferred
+    from .c01 import r2 as wrapper_symmetry
+    wrapper_symmetry(ctx, rule="C03.R8", kinds=("opt", "default"))
